@@ -1,6 +1,7 @@
 import OmplModel.Proofs.Oracle
 import OmplModel.Proofs.PlannerReport
 import OmplModel.Proofs.RRT
+import OmplModel.Proofs.RRTConnect
 /-!
 # C01 — geometric planners only report solution paths that are real
 
@@ -318,6 +319,112 @@ theorem rrt_problem_definition (cfg : Cfg S D) (mkPath : List S → P) (pd : Pde
 theorem rrt_nearest_in_tree (cfg : Cfg S D) (tree : Array (Node S)) (q : S) (h : 0 < tree.size) :
     nearest cfg tree q < tree.size := nearest_lt cfg tree q h
 
+/-! ## L2b: RRTConnect -/
+
+section RRTConnect
+open OmplModel.RRTConnect (ValidGoal Edge TreeEdge RealExact)
+
+/-- **Both trees keep their invariant**, for every configuration, start set, termination count, initial value of
+`startTree_` and script of uniform draws: start-tree roots are filtered problem-definition starts, goal-tree roots are
+goal samples that passed the `nextGoal` filter (at most `maxSampleCount()` of them); every other node's parent is older,
+shares its root, and the edge is a justified motion *in path direction* — parent → child in the start tree, child →
+parent in the goal tree (`checkMotion` returned true for exactly that ordered pair, or, with intermediate states, the two
+are consecutive `getMotionStates` points of such a motion). -/
+theorem rrtconnect_tree_inv (cfg : RRTConnect.Cfg S D) (starts : Array S) (ptc : Nat) (startTree : Bool)
+    (script : List S) :
+    RRTConnect.TreeInv (RRTConnect.ValidStart cfg starts) (TreeEdge cfg true)
+        (RRTConnect.solve cfg starts ptc startTree script).tStart ∧
+      RRTConnect.TreeInv (ValidGoal cfg) (TreeEdge cfg false)
+        (RRTConnect.solve cfg starts ptc startTree script).tGoal := by
+  unfold RRTConnect.solve
+  simp only
+  split
+  · exact ⟨RRTConnect.initTree_inv cfg starts, RRTConnect.empty_inv _ _⟩
+  · split
+    · exact ⟨RRTConnect.initTree_inv cfg starts, RRTConnect.empty_inv _ _⟩
+    · have := RRTConnect.solve_loop_inv cfg starts ptc startTree script
+      exact ⟨this.tS, this.tG⟩
+
+/-- a truthful approximate report of RRTConnect: a start-tree branch and its goal distance -/
+structure RealApprox (cfg : RRTConnect.Cfg S D) (starts : Array S) (path : List S) (dif : D) : Prop where
+  start : ∃ s0, path.head? = some s0 ∧ RRTConnect.ValidStart cfg starts s0
+  edges : RRT.Chain (Edge cfg) path
+  goal : ∃ last, path.getLast? = some last ∧ dif = cfg.goalDist last
+
+/-- **RRTConnect reports only real solutions**: for every configuration (validity predicate, motion validator, goal
+sampler, pair predicate, range, intermediate-state flag, connect bound), start set, termination count and script:
+EXACT_SOLUTION means `addSolutionPath(path, false, 0)` was called with a path from a valid start along justified motions
+to a filtered goal sample whose (start, goal) pair was accepted; APPROXIMATE_SOLUTION means
+`addSolutionPath(path, true, dif)` with a start-tree branch and `dif` the goal distance at its last state; any other
+status (TIMEOUT, INVALID_START, INVALID_GOAL) adds nothing. -/
+theorem rrtconnect_solution_real (cfg : RRTConnect.Cfg S D) (starts : Array S) (ptc : Nat) (startTree : Bool)
+    (script : List S) :
+    ((RRTConnect.solve cfg starts ptc startTree script).status.toBool = true →
+        (∃ path, (RRTConnect.solve cfg starts ptc startTree script).added = some (path, false, cfg.zero) ∧
+          (RRTConnect.solve cfg starts ptc startTree script).status = .exactSolution ∧ RealExact cfg starts path) ∨
+        (∃ path dif, (RRTConnect.solve cfg starts ptc startTree script).added = some (path, true, dif) ∧
+          (RRTConnect.solve cfg starts ptc startTree script).status = .approximateSolution ∧
+          RealApprox cfg starts path dif)) ∧
+      ((RRTConnect.solve cfg starts ptc startTree script).status.toBool = false →
+        (RRTConnect.solve cfg starts ptc startTree script).added = none) := by
+  unfold RRTConnect.solve
+  simp only
+  split
+  · exact ⟨fun h => by simp [Status.toBool] at h, fun _ => rfl⟩
+  · split
+    · exact ⟨fun h => by simp [Status.toBool] at h, fun _ => rfl⟩
+    · have hinv := RRTConnect.solve_loop_inv cfg starts ptc startTree script
+      generalize (RRTConnect.loop cfg ⟨(RRTConnect.initTree cfg starts).1, #[], startTree,
+        (RRTConnect.initTree cfg starts).2, ptc, none, cfg.inf, none, .timeout, false, false⟩ script) = r at hinv
+      split
+      · next path hex =>
+        exact ⟨fun _ => Or.inl ⟨path, rfl, rfl, hinv.exact path hex⟩, fun h => by simp [Status.toBool] at h⟩
+      · split
+        · next i hap =>
+          refine ⟨fun _ => Or.inr ⟨_, _, rfl, rfl, ?_⟩, fun h => by simp [Status.toBool] at h⟩
+          obtain ⟨nd, h1, h2⟩ := hinv.approx i hap
+          obtain ⟨d1, d2, d3, d4⟩ := RRTConnect.pathDown_spec cfg starts r.1.tStart hinv.tS i nd h1
+          exact ⟨⟨nd.root, d1, d3⟩, d4, ⟨nd.state, d2, h2⟩⟩
+        · refine ⟨fun h => ?_, fun _ => rfl⟩
+          rcases hinv.status with hs | hs <;> simp [hs, Status.toBool] at h
+
+/-- **Strict form for plain RRTConnect** (no intermediate states): every reported path, exact or approximate, passes
+`PathGeometric::check` with the same oracles — first state valid, every consecutive pair passes `checkMotion` again
+in path direction (goal-tree motions were validated child → parent, which is the direction the path runs). -/
+theorem rrtconnect_path_checks (cfg : RRTConnect.Cfg S D) (hni : cfg.addIntermediate = false) (starts : Array S)
+    (ptc : Nat) (startTree : Bool) (script : List S) (path : List S) (approx : Bool) (dif : D)
+    (h : (RRTConnect.solve cfg starts ptc startTree script).added = some (path, approx, dif)) :
+    pathCheck cfg.valid cfg.checkMotion path = true := by
+  have hreal := rrtconnect_solution_real cfg starts ptc startTree script
+  have hs : (RRTConnect.solve cfg starts ptc startTree script).status.toBool = true := by
+    cases hb : (RRTConnect.solve cfg starts ptc startTree script).status.toBool with
+    | true => rfl
+    | false => rw [hreal.2 hb] at h; exact absurd h (by simp)
+  have key : (∃ s0, path.head? = some s0 ∧ RRTConnect.ValidStart cfg starts s0) ∧ RRT.Chain (Edge cfg) path := by
+    rcases hreal.1 hs with ⟨p, h1, _, hr⟩ | ⟨p, d, h1, _, hr⟩
+    · rw [h] at h1
+      simp only [Option.some.injEq, Prod.mk.injEq] at h1
+      obtain ⟨rfl, _, _⟩ := h1
+      obtain ⟨s0, g, a, _, c, _, _⟩ := hr.ends
+      exact ⟨⟨s0, a, c⟩, hr.edges⟩
+    · rw [h] at h1
+      simp only [Option.some.injEq, Prod.mk.injEq] at h1
+      obtain ⟨rfl, _, _⟩ := h1
+      exact ⟨hr.start, hr.edges⟩
+  rw [pathCheck_iff]
+  refine ⟨?_, ?_⟩
+  · intro hlen
+    obtain ⟨s0, hs0, _, _, _, _, hv⟩ := key.1
+    cases path with
+    | nil => simp at hlen
+    | cons a r =>
+      simp only [List.head?_cons, Option.some.injEq] at hs0
+      subst hs0
+      simpa using hv
+  · exact RRT.chain_getElem _ _ (RRT.chain_mono _ _ (RRTConnect.edge_strict cfg hni) _ key.2)
+
+end RRTConnect
+
 /-! ### non-vacuity: a toy world on the number line
 
 States are naturals, the range is 2, landing on 5 is invalid, the goal is 6 with threshold 1 (so only 6
@@ -354,5 +461,41 @@ example : (solve (toy true) #[30, 5, 0] (toyScript.take 1)).added = some ([0, 1,
 example : (solve (toy false) #[30, 5, 0] []).status = .timeout ∧ (solve (toy false) #[30, 5, 0] []).added = none ∧
     (solve (toy false) #[30, 5] toyScript).status = .invalidStart ∧
     (solve (toy false) #[30, 5] toyScript).added = none := by decide
+
+/-! ### non-vacuity for RRTConnect: the same toy world, goal sample `goal`, connect loop bounded by `fuel` -/
+
+def toyC (interm : Bool) (goal fuel : Nat) : RRTConnect.Cfg Nat Nat where
+  dist a b := if a < b then b - a else a - b
+  interp a b t := if a < b then a + t else a - t
+  lt a b := decide (a < b)
+  div a _ := a
+  frac j _ := j
+  inf := 1000
+  zero := 0
+  maxDistance := 2
+  bounds s := decide (s ≤ 20)
+  valid s := decide (s ≠ 5)
+  checkMotion _ b := decide (b ≠ 5)
+  segCount a b := (if a < b then b - a else a - b) - 1
+  equalStates a b := a == b
+  goalDist s := if s < goal then goal - s else s - goal
+  goalSample _ := goal
+  maxGoalSamples := 1
+  pairValid _ _ := true
+  addIntermediate := interm
+  connectFuel := fuel
+
+/-- the trees meet: EXACT with the path start tree ++ goal tree, … -/
+example : (RRTConnect.solve (toyC false 6 10) #[30, 5, 0] 5 true [9]).status = .exactSolution ∧
+    (RRTConnect.solve (toyC false 6 10) #[30, 5, 0] 5 true [9]).added = some ([0, 2, 4, 6], false, 0) := by decide
+/-- … an interrupted connection from the goal side leaves an approximate start-tree branch (difference |12 - 4|), … -/
+example : (RRTConnect.solve (toyC false 12 1) #[30, 5, 0] 1 false [9]).status = .approximateSolution ∧
+    (RRTConnect.solve (toyC false 12 1) #[30, 5, 0] 1 false [9]).added = some ([0, 2, 4], true, 8) := by decide
+/-- … an invalid goal sample gives INVALID_GOAL, no valid start INVALID_START, a fired condition TIMEOUT: nothing added. -/
+example : (RRTConnect.solve (toyC false 5 10) #[30, 5, 0] 5 true [9]).status = .invalidGoal ∧
+    (RRTConnect.solve (toyC false 5 10) #[30, 5, 0] 5 true [9]).added = none ∧
+    (RRTConnect.solve (toyC false 6 10) #[30, 5] 5 true [9]).status = .invalidStart ∧
+    (RRTConnect.solve (toyC false 6 10) #[30, 5, 0] 0 true [9]).status = .timeout ∧
+    (RRTConnect.solve (toyC false 6 10) #[30, 5, 0] 0 true [9]).added = none := by decide
 
 end OmplModel.Props.C01
